@@ -180,6 +180,10 @@ def run_rerun(case, res):
     from vf import physics
 
     m = physics.manager(case["method"], pipe="single", load=case["loads"][0], months=12)
+    import tempfile
+    from pathlib import Path
+
+    outdir = Path(tempfile.mkdtemp(prefix="vf-c19-"))
     outs = []
     for step, ld in enumerate(case["loads"]):
         if step > 0:
@@ -190,8 +194,16 @@ def run_rerun(case, res):
         if e is not None:
             res.bump("rerun_design_failed")
             return
-        d, files = physics.write_outputs(m, tag="study")  # the same four labels every time
-        physics.cleanup(d)
+        # the same four labels every time, and the same output directory (the files of the earlier run are overwritten)
+        import warnings as _w
+        from contextlib import redirect_stderr as _re, redirect_stdout as _ro
+
+        with _w.catch_warnings():
+            _w.simplefilter("ignore")
+            with _ro(io.StringIO()), _re(io.StringIO()):
+                m.prepare_results("verif", "notes", "vf", "study")
+                m.write_output_files(outdir)
+        files = {pth.name: pth.read_text() for pth in outdir.iterdir()}
         outs.append((ld, files, [list(map(float, c)) for c in m._search.ghe.gFunction.bore_locations], float(m._search.ghe.bhe.b.H)))
     ld, files, coords, h = outs[-1]
     c1 = dict(case)
@@ -208,6 +220,7 @@ def run_rerun(case, res):
     js = json.loads(files["SimulationSummary.json"])
     if js["ghe_system"]["number_of_boreholes"] != len(coords):
         res["violations"].append(core.viol("borefield_table_wrong", c1, msg=f"run {len(outs)} on one manager: the summary reports {js['ghe_system']['number_of_boreholes']} boreholes, the design has {len(coords)}", rerun=True, where="summary"))
+    physics.cleanup(outdir)
     res.outcome("reruns_on_one_manager")
     res["nontrivial"] += 1
     res["sample"] = dict(case)
